@@ -119,9 +119,9 @@ type Tester struct {
 func (t *Tester) PhantomIsLive(addr string, port uint16) (bool, error) {
 	t.Calls = append(t.Calls, fmt.Sprintf("%s:%d", addr, port))
 	if t.Live != nil && t.Live(addr, port) {
-		return true, fmt.Errorf("scripted: live")
+		return true, liveness.ErrLiveHost // the values the real tester returns
 	}
-	return false, fmt.Errorf("scripted: not live")
+	return false, liveness.NotLive
 }
 
 func (t *Tester) PrintAndReset(*golog.Logger) {}
